@@ -158,9 +158,10 @@ def encoder_form(chk, so):
     from ..constfold import module_constants
     ev = so.ev("encode_symm_int")
     chk.saw(SO, "encode_symm_int")
-    chk.need(len(ev.returns) == 1, "encode_symm_int: expected one return")
-    ev.returns[0].value = expand_weighted_sums(ev.returns[0].value, module_constants(so.tree))
-    lf = linear_form(ev.returns[0].value)
+    chk.need(len(ev.returns) >= 1, "encode_symm_int: no return")
+    # the packed value is what the last exit returns; an exit in front of it with another value is reported by R11.19 (sa/rules/exits.py)
+    ev.returns[-1].value = expand_weighted_sums(ev.returns[-1].value, module_constants(so.tree))
+    lf = linear_form(ev.returns.pick(-1).value)
     if lf is None:
         raise AnalysisError("encode_symm_int: the packed value is not a linear form in the digits")
     return ev, lf
